@@ -17,6 +17,9 @@ const (
 	firstTx    = 201  // scenario transaction ids (1..BaseH are the base coinbases)
 	firstBulky = 5001 // bulky transactions of the eviction tier
 	firstChain = 7001 // a long chain of unconfirmed transactions (replacements with > 100 descendants)
+	firstMotif = 400  // funding tx 400, then (pooled tx, its child, its cheaper multi-input double spend) triples
+	nMotif     = 8
+	firstRank  = 8000 // the rank-run family: funding tx, anchor, tail, a run of insertions behind the anchor, two-parent children
 	unknownTx  = 9000 // parents that never exist
 	baseH      = 120
 )
@@ -38,7 +41,7 @@ type gen struct {
 func (g *gen) amt(sat uint64) conc.Amt { return conc.SatAmt(sat) }
 
 func (g *gen) freshCoinbase() *genOut {
-	if g.cbN >= 14 { // 15 funds the long chain, 16..21 are left to the bulky transactions
+	if g.cbN >= 12 { // 13 funds the motif transactions, 14 the rank-run family, 15 the long chain, 16..21 are left to the bulky transactions
 		return nil
 	}
 	g.cbN++
@@ -113,13 +116,27 @@ func (g *gen) makeTx(id int) {
 	}
 	rate := []uint64{2, 2, 3, 5, 8, 13, 21, 40}[r.Intn(8)]
 	k := r.Intn(100)
+	keepOrder := false
 	switch {
 	case k < 15: // double spend of something already used, usually paying more
 		if o := g.usedOut(); o != nil {
-			take(o)
-			rate *= uint64(1 + r.Intn(4))
+			if r.Intn(5) < 2 {
+				// a cheaper double spend (refused by the fee rule, kept in the reject cache with its data),
+				// the contested output not being its first input
+				rate = 2
+				keepOrder = true
+				for n := 1 + r.Intn(2); n > 0; n-- {
+					if u := g.unusedOut(r.Intn(2) == 0); u != nil {
+						take(u)
+					}
+				}
+				take(o)
+			} else {
+				take(o)
+				rate *= uint64(1 + r.Intn(4))
+			}
 		}
-		if r.Intn(3) == 0 {
+		if !keepOrder && r.Intn(2) == 0 {
 			if o := g.unusedOut(true); o != nil {
 				take(o)
 			}
@@ -160,7 +177,7 @@ func (g *gen) makeTx(id int) {
 		ins = append(ins, conc.InDef{Tx: h, Vout: 1, Ok: true})
 		insum += 50e8
 	}
-	if len(ins) == 0 || (known && r.Intn(4) == 0 && len(ins) < 3) {
+	if len(ins) == 0 || (known && !keepOrder && r.Intn(4) == 0 && len(ins) < 3) {
 		var o *genOut
 		if r.Intn(10) < 3 {
 			o = g.freshCoinbase()
@@ -180,6 +197,9 @@ func (g *gen) makeTx(id int) {
 	if len(ins) == 0 {
 		ins = append(ins, conc.InDef{Tx: unknownTx + id, Vout: 1, Ok: true})
 		known = false
+	}
+	if !keepOrder {
+		r.Shuffle(len(ins), func(a, b int) { ins[a], ins[b] = ins[b], ins[a] })
 	}
 	if r.Intn(30) == 0 {
 		ins[r.Intn(len(ins))].Ok = false
@@ -219,6 +239,53 @@ func (g *gen) makeTx(id int) {
 	g.sc.Tx[id] = conc.TxDef{Ins: ins, Outs: outs, Ver: 2}
 }
 
+// makeMotifs: funding tx (base coinbase 13) with 3 outputs per triple; P spends the first, C spends P,
+// M spends the second (and for odd triples the third) and, as its LAST input, the one P spends - paying less
+func (g *gen) makeMotifs() {
+	const unit = 50000000
+	sh := func(addr int, sat uint64) conc.OutDef {
+		return conc.OutDef{Amt: g.amt(sat), Addr: addr, St: conc.StP2SH}
+	}
+	f := conc.TxDef{Ins: []conc.InDef{{Tx: 13, Vout: 1, Ok: true}}, Ver: 2}
+	for v := 0; v < 3*nMotif; v++ {
+		f.Outs = append(f.Outs, sh(firstMotif*10+v, unit))
+	}
+	f.Outs = append(f.Outs, sh(firstMotif*10+3*nMotif, 50e8-3*nMotif*unit-50000))
+	g.sc.Tx[firstMotif] = f
+	for j := 0; j < nMotif; j++ {
+		p, c, m := firstMotif+10+4*j, firstMotif+11+4*j, firstMotif+12+4*j
+		g.sc.Tx[p] = conc.TxDef{Ins: []conc.InDef{{Tx: firstMotif, Vout: 3*j + 1, Ok: true}},
+			Outs: []conc.OutDef{sh(p*10, unit/2), sh(p*10+1, unit/2-20000)}, Ver: 2}
+		g.sc.Tx[c] = conc.TxDef{Ins: []conc.InDef{{Tx: p, Vout: 1, Ok: true}}, Outs: []conc.OutDef{sh(c*10, unit/2-8000)}, Ver: 2}
+		ins := []conc.InDef{{Tx: firstMotif, Vout: 3*j + 2, Ok: true}}
+		sum := uint64(unit)
+		if j%2 == 1 {
+			ins = append(ins, conc.InDef{Tx: firstMotif, Vout: 3*j + 3, Ok: true})
+			sum += unit
+		}
+		ins = append(ins, conc.InDef{Tx: firstMotif, Vout: 3*j + 1, Ok: true})
+		sum += unit
+		g.sc.Tx[m] = conc.TxDef{Ins: ins, Outs: []conc.OutDef{sh(m*10, sum-uint64(1500+100*j))}, Ver: 2}
+	}
+}
+
+// ancestorsOf: the scenario transactions t depends on, parents first
+func (g *gen) ancestorsOf(t int) (res []int) {
+	seen := map[int]bool{}
+	var walk func(x int)
+	walk = func(x int) {
+		for _, in := range g.sc.Tx[x].Ins {
+			if _, ok := g.sc.Tx[in.Tx]; ok && !seen[in.Tx] {
+				seen[in.Tx] = true
+				walk(in.Tx)
+				res = append(res, in.Tx)
+			}
+		}
+	}
+	walk(t)
+	return
+}
+
 func hasBadScript(d conc.TxDef) bool {
 	for _, in := range d.Ins {
 		if !in.Ok {
@@ -246,7 +313,7 @@ func (g *gen) makeChain(nchain int) {
 		Outs: []conc.OutDef{{Amt: g.amt(50e8 - 4000000), Addr: (firstChain + nchain + 1) * 10, St: conc.StP2SH}}, Ver: 2}
 }
 
-func (g *gen) makeOps(ntx, nops, nbulky, nchain int) OpLine {
+func (g *gen) makeOps(ntx, nops, nbulky, nchain, nrank, variant int) OpLine {
 	r := g.rng
 	ln := OpLine{Obs: []int{1, 1, 1, 2, 5, 1000}[r.Intn(6)]}
 	ptr := 0
@@ -276,9 +343,18 @@ func (g *gen) makeOps(ntx, nops, nbulky, nchain int) OpLine {
 		}
 		return firstTx + i
 	}
+	var recent []int
 	some := func(n int) (l []int) {
 		for i := 0; i < n; i++ {
-			l = append(l, firstTx+r.Intn(ntx))
+			if len(recent) > 0 && r.Intn(10) < 7 {
+				k := len(recent) - 1 - r.Intn(12)
+				if k < 0 {
+					k = 0
+				}
+				l = append(l, recent[k])
+			} else {
+				l = append(l, firstTx+r.Intn(ntx))
+			}
 		}
 		return
 	}
@@ -288,6 +364,11 @@ func (g *gen) makeOps(ntx, nops, nbulky, nchain int) OpLine {
 	if nbulky > 0 {
 		return g.bulkyOps(ntx, nbulky)
 	}
+	if nrank > 0 {
+		return g.rankOps(ntx, nrank, variant)
+	}
+	// the funding transaction of the motif triples is confirmed first
+	ln.Ops = append(ln.Ops, Op{A: "Submit", T: firstMotif, Mode: "net"}, Op{A: "MineListing", K: -1})
 	for len(ln.Ops) < nops {
 		k := r.Intn(100)
 		switch {
@@ -300,10 +381,33 @@ func (g *gen) makeOps(ntx, nops, nbulky, nchain int) OpLine {
 				mode = []string{"net", "net", "net", "net", "trusted", "local"}[r.Intn(6)]
 			}
 			ln.Ops = append(ln.Ops, Op{A: "Submit", T: t, Mode: mode})
+			recent = append(recent, t)
 		case k < 90:
 			ln.Ops = append(ln.Ops, Op{A: "MineListing", K: []int{-1, -1, 1, 2, 3, 5}[r.Intn(6)]})
+		case k < 92 && r.Intn(3) == 0:
+			// a transaction (and its child) is pooled, its cheaper double spend - contested output not its first
+			// input - is refused but kept in the reject cache (or: was pooled first and got replaced), and then
+			// somebody mines the double spend
+			j := r.Intn(nMotif)
+			p, c, m := firstMotif+10+4*j, firstMotif+11+4*j, firstMotif+12+4*j
+			if r.Intn(3) == 0 {
+				ln.Ops = append(ln.Ops, Op{A: "Submit", T: m, Mode: "net"})
+			}
+			ln.Ops = append(ln.Ops, Op{A: "Submit", T: p, Mode: "net"})
+			if r.Intn(3) > 0 {
+				ln.Ops = append(ln.Ops, Op{A: "Submit", T: c, Mode: "net"})
+			}
+			ln.Ops = append(ln.Ops, Op{A: "Submit", T: m, Mode: "net"})
+			if r.Intn(4) == 0 {
+				ln.Ops = append(ln.Ops, Op{A: "SaveLoad"})
+			}
+			ln.Ops = append(ln.Ops, Op{A: "MineRejected", Txs: []int{m}})
 		case k < 92:
-			ln.Ops = append(ln.Ops, Op{A: "MineForeign", Txs: some(1 + r.Intn(4))})
+			if r.Intn(2) == 0 {
+				ln.Ops = append(ln.Ops, Op{A: "MineRejected", Txs: some(r.Intn(2))})
+			} else {
+				ln.Ops = append(ln.Ops, Op{A: "MineForeign", Txs: some(1 + r.Intn(4))})
+			}
 		case k < 94:
 			ln.Ops = append(ln.Ops, Op{A: "Reorg", D: 1 + r.Intn(2), Blks: [][]int{some(r.Intn(3)), some(r.Intn(2))}})
 		case k < 96:
@@ -406,6 +510,104 @@ func (g *gen) bulkyOps(ntx, nbulky int) OpLine {
 	return ln
 }
 
+// The rank-run family.  The incrementally kept sorted list gives every transaction a rank between the ranks of
+// its neighbours; a run of insertions that all land in the same gap uses that space up (it halves each time:
+// about 42 insertions), which is where the list has to renumber.  F (confirmed first) funds everything;
+// A is the anchor (best fee rate, many outputs), B the tail; T_i are independent transactions of identical
+// shape whose fee rises (variant: falls) slowly, so each lands directly behind A (in front of B); after each
+// T_i a child of A and T_i with a fee rate between theirs arrives (both input orders).  Nothing in the run
+// rebuilds the list (no block, no reload); every listing must have parents before children and be minable.
+func (g *gen) makeRank(n int) {
+	sh := func(addr int) conc.OutDef { return conc.OutDef{Addr: addr, St: conc.StP2SH} }
+	f := conc.TxDef{Ins: []conc.InDef{{Tx: 14, Vout: 1, Ok: true}}, Ver: 2}
+	const unit = 40000000
+	for v := 0; v < n+3; v++ {
+		o := sh(firstRank*10 + v)
+		o.Amt = g.amt(unit)
+		f.Outs = append(f.Outs, o)
+	}
+	last := sh(firstRank*10 + n + 3)
+	last.Amt = g.amt(50e8 - uint64(n+3)*unit - 100000)
+	f.Outs = append(f.Outs, last)
+	g.sc.Tx[firstRank] = f
+	a := conc.TxDef{Ins: []conc.InDef{{Tx: firstRank, Vout: 1, Ok: true}}, Ver: 2}
+	for v := 0; v < 2*n+1; v++ {
+		o := sh((firstRank+1)*10 + v)
+		o.Amt = g.amt(100000)
+		a.Outs = append(a.Outs, o)
+	}
+	g.sc.Tx[firstRank+1] = a // fee: unit - (2n+1)*100000
+	b := conc.TxDef{Ins: []conc.InDef{{Tx: firstRank, Vout: 2, Ok: true}}, Ver: 2}
+	bo := sh((firstRank + 2) * 10)
+	bo.Amt = g.amt(unit - 400)
+	b.Outs = []conc.OutDef{bo}
+	g.sc.Tx[firstRank+2] = b
+	for i := 0; i < n; i++ {
+		for variant := 0; variant < 2; variant++ { // rising run: 8100+i, falling run: 8500+i (same inputs: the two runs are alternatives)
+			fee := uint64(3000 + 10*i)
+			if variant == 1 {
+				fee = uint64(3000 + 10*(n-i))
+			}
+			t := firstRank + 100 + 400*variant + i
+			o1, o2 := sh(t*10), sh(t*10+1)
+			o1.Amt, o2.Amt = g.amt(unit/2), g.amt(unit/2-fee)
+			g.sc.Tx[t] = conc.TxDef{Ins: []conc.InDef{{Tx: firstRank, Vout: 3 + i, Ok: true}}, Outs: []conc.OutDef{o1, o2}, Ver: 2}
+			for order := 0; order < 2; order++ { // child: (A, T_i) and (T_i, A)
+				c := firstRank + 200 + 400*variant + 100*order + i
+				ins := []conc.InDef{{Tx: firstRank + 1, Vout: 1 + 2*i + order, Ok: true}, {Tx: t, Vout: 1 + order, Ok: true}}
+				val := uint64(100000 + unit/2)
+				if order == 1 {
+					ins[0], ins[1] = ins[1], ins[0]
+					val = 100000 + unit/2 - fee
+				}
+				co := sh(c * 10)
+				co.Amt = g.amt(val - 50000)
+				g.sc.Tx[c] = conc.TxDef{Ins: ins, Outs: []conc.OutDef{co}, Ver: 2}
+			}
+		}
+	}
+}
+
+func (g *gen) rankOps(ntx, n, variant int) OpLine {
+	r := g.rng
+	ln := OpLine{Obs: []int{10, 1000}[variant%2]}
+	add := func(o Op) { ln.Ops = append(ln.Ops, o) }
+	falling := (variant/2)%2 == 1
+	add(Op{A: "Submit", T: firstRank, Mode: "net"})
+	add(Op{A: "MineListing", K: -1})
+	add(Op{A: "Submit", T: firstRank + 1, Mode: "net"})
+	add(Op{A: "Submit", T: firstRank + 2, Mode: "net"})
+	for i := 0; i < n; i++ {
+		base := firstRank + 100
+		if falling {
+			base += 400
+		}
+		add(Op{A: "Submit", T: base + i, Mode: []string{"net", "net", "trusted"}[r.Intn(3)]})
+		if variant < 2 && i < n/2 {
+			continue // the first histories keep the pool small: children only in the second half of the run
+		}
+		// the child naming A first always arrives (a rank tie between A and T_i shows there), the one naming T_i
+		// first before it, after it, or not at all
+		switch r.Intn(3) {
+		case 0:
+			add(Op{A: "Submit", T: base + 100 + i, Mode: "net"}) // child (A, T_i)
+		case 1:
+			add(Op{A: "Submit", T: base + 200 + i, Mode: "net"}) // child (T_i, A)
+			add(Op{A: "Submit", T: base + 100 + i, Mode: "net"})
+		default:
+			add(Op{A: "Submit", T: base + 100 + i, Mode: "net"})
+			add(Op{A: "Submit", T: base + 200 + i, Mode: "net"})
+		}
+		// (no Tick here: after a listing it raises the fee floor to just under the worst listed rate - policy -
+		// and the run would be refused)
+	}
+	add(Op{A: "Observe"})
+	add(Op{A: "MineListing", K: 30})
+	add(Op{A: "MineListing", K: -1})
+	_ = ntx
+	return ln
+}
+
 func cmdGen(args []string) {
 	fs := flag.NewFlagSet("gen", flag.ExitOnError)
 	seed := fs.Int64("seed", 1, "")
@@ -414,6 +616,7 @@ func cmdGen(args []string) {
 	nops := fs.Int("ops", 60, "")
 	nbulky := fs.Int("bulky", 0, "")
 	nchain := fs.Int("longchain", 0, "")
+	nrank := fs.Int("rankrun", 0, "")
 	scen := fs.String("scenario", "", "")
 	opsout := fs.String("opsout", "", "")
 	fs.Parse(args)
@@ -422,8 +625,12 @@ func cmdGen(args []string) {
 	for i := 0; i < *ntx; i++ {
 		g.makeTx(firstTx + i)
 	}
+	g.makeMotifs()
 	if *nchain > 0 {
 		g.makeChain(*nchain)
+	}
+	if *nrank > 0 {
+		g.makeRank(*nrank)
 	}
 	b, _ := json.Marshal(g.sc)
 	if err := os.WriteFile(*scen, b, 0660); err != nil {
@@ -437,7 +644,7 @@ func cmdGen(args []string) {
 	}
 	w := bufio.NewWriter(f)
 	for i := 0; i < *traces; i++ {
-		ln := g.makeOps(*ntx, *nops, *nbulky, *nchain)
+		ln := g.makeOps(*ntx, *nops, *nbulky, *nchain, *nrank, i)
 		lb, _ := json.Marshal(ln)
 		w.Write(lb)
 		w.WriteByte('\n')
